@@ -23,8 +23,8 @@ func init() {
 	fw.Register(&fw.Check{
 		ID:    "C10",
 		Level: "model_checking",
-		Rule: "alphabet of 37 top-level statements over a few shared names (declarations with :=, var, const, const/iota, global, destructuring; assignments and ++; closure creation before/after writes to captured variables; closure factories; " +
-			"blocks, loops and try statements that re-use local slots; imports of a counting source module and a builtin module + mutation; shadowing a builtin; expression statements; println; runtime and compile errors). " +
+		Rule: "alphabet of 40 top-level statements over a few shared names (declarations with :=, var, const, const/iota, global, destructuring; assignments and ++; closure creation before/after writes to captured variables; closure factories; " +
+			"blocks, loops and try statements that re-use local slots; imports of a counting source module and a builtin module + mutation; shadowing a builtin; expression statements; println; the constants -0.0 and 0.0; runtime and compile errors). " +
 			"A state is a statement sequence of length <= 3 (thorough 4); for every sequence ALL 2^(n-1) ways of cutting it into consecutive fragments are evaluated in one Eval session and, for every fragment k, compared with a fresh Eval given the concatenation of fragments 1..k: " +
 			"result value or error (compile errors without position), cumulative printed output, and after the last fragment a probe fragment returning every declared name and calling every closure. Optimizer on and off. " +
 			"states = sequences, transitions = fragment evaluations, traces = comparisons; non-trivial = the cut separates a closure's creation from a later write to its captured variable, or follows a slot-re-using block, a const group, an import or a try",
@@ -44,7 +44,7 @@ type stmt struct {
 // defined result value, so values are compared only for fragments ending in an expression statement.)
 func (s stmt) isExpr() bool {
 	switch s.src {
-	case "f()", "g()", "h()", "m.inc()", "import(\"cnt\").inc()", "bm.x", "int(\"7\")", "println(\"p\", a)", "a", "[a, b]", "z := 0; 1 / z", "nosuchname":
+	case "[string(nz), string(pz)]", "f()", "g()", "h()", "m.inc()", "import(\"cnt\").inc()", "bm.x", "int(\"7\")", "println(\"p\", a)", "a", "[a, b]", "z := 0; 1 / z", "nosuchname":
 		return true
 	}
 	return false
@@ -88,6 +88,11 @@ var alphabet = []stmt{
 	{src: "a := 5"},
 	{src: "c = 4"},
 	{src: "k := func() { return func() { return a + b } }()", closures: []string{"k"}, tag: "closure"},
+	// constants that are equal as Go map keys but distinct values: the session's constant pool is carried from
+	// fragment to fragment
+	{src: "nz := -0.0", declares: []string{"nz"}, tag: "const"},
+	{src: "pz := 0.0", declares: []string{"pz"}, tag: "const"},
+	{src: "[string(nz), string(pz)]"},
 }
 
 func moduleMap() *ugo.ModuleMap {
